@@ -38,19 +38,20 @@ def main(argv):
         src = open(demo).read()
         local_demo = os.path.join(wt, "_demo_seeded.py")
         open(local_demo, "w").write(src.replace("/tmp/mut_%s" % prop, wt))
-        r0 = sh("/venv/bin/python %s" % local_demo, cwd=wt, env=env, timeout=300)
+        r0 = sh("unshare -n sh -c 'ip link set lo up; exec /venv/bin/python %s'" % local_demo, cwd=wt, env=env, timeout=300)
         res["demo_exit_original"] = r0.returncode
         a = sh("git -C %s apply %s" % (wt, os.path.join(cand, "patch.diff")))
         res["applies"] = a.returncode == 0
         if not res["applies"]:
             print("patch does not apply:", a.stdout[-500:])
             return 1
-        r1 = sh("/venv/bin/python %s" % local_demo, cwd=wt, env=env, timeout=300)
+        r1 = sh("unshare -n sh -c 'ip link set lo up; exec /venv/bin/python %s'" % local_demo, cwd=wt, env=env, timeout=300)
         res["demo_exit_changed"] = r1.returncode
         res["demo_tail_changed"] = r1.stdout[-600:]
         os.remove(local_demo)
-        t = sh("/venv/bin/python -m pytest -ra -q -p no:cacheprovider --timeout=900 --continue-on-collection-errors "
-               "-p no:hypothesispytest", cwd=wt, env=env, timeout=1800)
+        # own network namespace: the suite binds fixed ports (5555/5556), concurrent runs would collide
+        t = sh("unshare -n sh -c 'ip link set lo up; exec /venv/bin/python -m pytest -ra -q -p no:cacheprovider --timeout=900 "
+               "--continue-on-collection-errors -p no:hypothesispytest'", cwd=wt, env=env, timeout=1800)
         failed = sorted(set(l.split(" ")[1] for l in t.stdout.splitlines() if l.startswith(("FAILED ", "ERROR "))))
         res["suite_failed"] = failed
         res["suite_summary"] = [l for l in t.stdout.splitlines() if " passed" in l or " failed" in l][-1:]
